@@ -913,14 +913,19 @@ impl Session {
             #[cfg(feature = "verif")]
             crate::verif::point("wf.before_buffer_lock").await;
             let mut buf = self.buffer.lock().await;
-            let old_len = buf.len();
-            buf.extend_from_slice(&buffer);
-            tracing::debug!(
-                "[Session] write_frame: Buffered frame (buffer size: {} -> {})",
-                old_len,
-                buf.len()
-            );
-            return Ok(());
+            // Re-check under the lock: if buffering was disabled (and the buffer
+            // flushed) while this task waited, appending now would strand the
+            // frame in the buffer; fall through to the direct write instead.
+            if self.buffering.load(std::sync::atomic::Ordering::Relaxed) {
+                let old_len = buf.len();
+                buf.extend_from_slice(&buffer);
+                tracing::debug!(
+                    "[Session] write_frame: Buffered frame (buffer size: {} -> {})",
+                    old_len,
+                    buf.len()
+                );
+                return Ok(());
+            }
         }
 
         #[cfg(feature = "verif")]
